@@ -607,3 +607,159 @@ Proof.
       destruct e as [b'|b'|o' b'|o'|b'|o']; cbn in P; try discriminate;
         destruct (N.eqb o' o); cbn in P; discriminate.
 Qed.
+
+(* ================================================================ clause wrappers
+   Small combinations of the lemmas above, one per clause of the property text
+   (used by Properties.v). *)
+Lemma run_snoc h e : run (h ++ [e]) = r_state (step (run h) e).
+Proof. unfold run. rewrite run_from_app. reflexivity. Qed.
+
+Lemma hist_valid_snoc h e : hist_valid (h ++ [e]) = hist_valid h && op_valid (run h) e.
+Proof.
+  unfold hist_valid. rewrite hist_valid_from_app. cbn [hist_valid_from]. rewrite andb_true_r. reflexivity.
+Qed.
+
+Lemma hist_valid_prefix h1 h2 : hist_valid (h1 ++ h2) = true -> hist_valid h1 = true.
+Proof.
+  unfold hist_valid. rewrite hist_valid_from_app. intro H. apply andb_true_iff in H. tauto.
+Qed.
+
+(* an observer object exists exactly when the history fold has a view for it *)
+Lemma alive_iff_view h o :
+  hist_valid h = true -> (o_alive (obss (run h) o) = true <-> h_view h o <> None).
+Proof.
+  intro V. destruct (run_inv h V) as [I _]. apply linked_alive. apply (i_link _ _ I).
+Qed.
+
+Lemma pending_alive h o : hist_valid h = true -> h_pending h o = true -> o_alive (obss (run h) o) = true.
+Proof.
+  intros V P. apply alive_iff_view; [exact V|]. unfold h_pending in P.
+  destruct (h_view h o); [discriminate | discriminate].
+Qed.
+
+(* "attached to b" in the history fold = the heap says so, and b is alive *)
+Lemma attached_alive h o b :
+  hist_valid h = true -> h_attached h o = Some b ->
+  o_alive (obss (run h) o) = true /\ o_observee (obss (run h) o) = Some b /\
+  b_alive (obls (run h) b) = true /\ In o (b_regs (obls (run h) b)).
+Proof.
+  intros V A. destruct (run_inv h V) as [I _]. pose proof (i_link _ _ I o) as L.
+  unfold h_attached in A. destruct (h_view h o) as [w|]; [|discriminate].
+  cbn in L. destruct L as [Al [E _]]. rewrite A in E.
+  destruct (i_obsv _ _ I o b Al E) as [Ab Hin]. repeat split; assumption.
+Qed.
+
+Lemma pending_text_iff o h :
+  h_pending h o = true <->
+  exists h1 b h2, h = h1 ++ Notify b :: h2 /\ h_attached h1 o = Some b /\
+                  forallb (fun e => negb (clears o b e)) h2 = true.
+Proof.
+  split; [apply pending_text_only_if|].
+  intros [h1 [b [h2 [E [A K]]]]]. subst h. apply pending_text_if; assumption.
+Qed.
+
+(* wasNotified() answers true exactly when the observable o is attached to has notified
+   since o's creation / previous poll and is still there; false otherwise *)
+Lemma was_notified_iff h o :
+  hist_valid h = true -> o_alive (obss (run h) o) = true ->
+  exists r, r_out (step (run h) (Poll o)) = OBool r /\
+    (r = true <->
+     exists h1 b h2, h = h1 ++ Notify b :: h2 /\ h_attached h1 o = Some b /\
+                     forallb (fun e => negb (clears o b e)) h2 = true).
+Proof.
+  intros V A. exists (h_pending h o). split; [apply poll_spec; assumption | apply pending_text_iff].
+Qed.
+
+(* a poll consumes the notification: the next poll answers false *)
+Lemma poll_once h o :
+  hist_valid h = true -> o_alive (obss (run h) o) = true ->
+  r_out (step (r_state (step (run h) (Poll o))) (Poll o)) = OBool false.
+Proof.
+  intros V A.
+  assert (V' : hist_valid (h ++ [Poll o]) = true).
+  { rewrite hist_valid_snoc, V. cbn [op_valid andb]. exact A. }
+  assert (Hv : h_view (h ++ [Poll o]) o <> None).
+  { rewrite h_view_snoc. cbn [h_step]. rewrite N.eqb_refl.
+    apply (alive_iff_view h o V) in A. destruct (h_view h o); [discriminate | contradiction]. }
+  assert (A' : o_alive (obss (run (h ++ [Poll o])) o) = true) by (apply alive_iff_view; assumption).
+  rewrite <- run_snoc. rewrite poll_spec by assumption.
+  unfold h_pending. rewrite h_view_snoc. cbn [h_step]. rewrite N.eqb_refl.
+  destruct (h_view h o); reflexivity.
+Qed.
+
+(* repeated notifications between two polls coalesce: one true, then false *)
+Lemma coalesce h o b k :
+  hist_valid (h ++ repeat (Notify b) (S k)) = true -> h_attached h o = Some b ->
+  let s := run (h ++ repeat (Notify b) (S k)) in
+  r_out (step s (Poll o)) = OBool true /\
+  r_out (step (r_state (step s (Poll o))) (Poll o)) = OBool false.
+Proof.
+  intros V Att s.
+  assert (P : h_pending (h ++ repeat (Notify b) (S k)) o = true).
+  { cbn [repeat]. apply pending_text_if; [exact Att|].
+    clear. induction k as [|k IH]; [reflexivity | exact IH]. }
+  assert (A : o_alive (obss s o) = true) by (apply pending_alive; assumption).
+  split.
+  - subst s. rewrite poll_spec by assumption. rewrite P. reflexivity.
+  - apply poll_once; assumption.
+Qed.
+
+(* an observer created after any number of notifications starts clean *)
+Lemma late_observer_clean h o b :
+  hist_valid (h ++ [NewObserver o b]) = true ->
+  o_alive (obss (run (h ++ [NewObserver o b])) o) = true /\
+  r_out (step (run (h ++ [NewObserver o b])) (Poll o)) = OBool false.
+Proof.
+  intro V.
+  assert (Hv : h_view (h ++ [NewObserver o b]) o = Some (mkView (Some b) false)).
+  { rewrite h_view_snoc. cbn [h_step]. rewrite N.eqb_refl. reflexivity. }
+  assert (A : o_alive (obss (run (h ++ [NewObserver o b])) o) = true).
+  { apply alive_iff_view; [exact V|]. rewrite Hv. discriminate. }
+  split; [exact A|]. rewrite poll_spec by assumption. unfold h_pending. rewrite Hv. reflexivity.
+Qed.
+
+(* independence: an event that names neither o nor the observable o is attached to
+   (another observer's creation, destruction or poll, another observable's notification
+   or destruction) changes neither o's view nor the answer o's next poll gives *)
+Lemma view_indep h e o :
+  mentions o (h_attached h o) e = false -> h_view (h ++ [e]) o = h_view h o.
+Proof. intro M. rewrite h_view_snoc. apply h_step_indep. exact M. Qed.
+
+Lemma poll_indep h e o :
+  hist_valid (h ++ [e]) = true -> o_alive (obss (run h) o) = true ->
+  mentions o (h_attached h o) e = false ->
+  o_alive (obss (run (h ++ [e])) o) = true /\
+  r_out (step (run (h ++ [e])) (Poll o)) = r_out (step (run h) (Poll o)).
+Proof.
+  intros V' A M. pose proof (hist_valid_prefix _ _ V') as V.
+  pose proof (view_indep h e o M) as Ev.
+  assert (A' : o_alive (obss (run (h ++ [e])) o) = true).
+  { apply alive_iff_view; [exact V'|]. rewrite Ev. apply alive_iff_view; assumption. }
+  split; [exact A'|]. rewrite !poll_spec by assumption. unfold h_pending. rewrite Ev. reflexivity.
+Qed.
+
+(* no use-after-free event in any valid history; every stored pointer designates a live object *)
+Lemma no_uaf h : hist_valid h = true -> uaf_from init h = false.
+Proof. intro V. apply (run_inv h V). Qed.
+
+Lemma no_dangling h :
+  hist_valid h = true ->
+  (forall b o, b_alive (obls (run h) b) = true -> In o (b_regs (obls (run h) b)) ->
+               o_alive (obss (run h) o) = true /\ o_observee (obss (run h) o) = Some b) /\
+  (forall o b, o_alive (obss (run h) o) = true -> o_observee (obss (run h) o) = Some b ->
+               b_alive (obls (run h) b) = true /\ In o (b_regs (obls (run h) b))).
+Proof.
+  intro V. destruct (run_inv h V) as [I _]. split; [apply (i_regs _ _ I) | apply (i_obsv _ _ I)].
+Qed.
+
+(* a stamp handed out later is larger than (so distinct from) every stamp handed out before *)
+Lemma stamp_fresh_vs_earlier h1 h2 u v :
+  In u (issued h1) -> In v (issued_from (run h1) h2) -> u < v.
+Proof.
+  intros Hu Hv. destruct (stamps_fresh_all h1) as [_ [_ Hall]].
+  rewrite Forall_forall in Hall. specialize (Hall u Hu).
+  pose proof (later_stamps_larger h1 h2 v Hv). lia.
+Qed.
+
+Lemma issued_split h1 h2 : issued (h1 ++ h2) = issued h1 ++ issued_from (run h1) h2.
+Proof. unfold issued. apply issued_app. Qed.
